@@ -253,6 +253,19 @@ impl<T> Default for OnceCell<T> {
     }
 }
 
+impl<T: Clone> Clone for OnceCell<T> {
+    fn clone(&self) -> Self {
+        yield_point(Site::CellGet);
+        Self(self.0.clone())
+    }
+}
+
+impl<T: core::fmt::Debug> core::fmt::Debug for OnceCell<T> {
+    fn fmt(&self, f: &mut core::fmt::Formatter<'_>) -> core::fmt::Result {
+        self.0.fmt(f)
+    }
+}
+
 impl<T> From<T> for OnceCell<T> {
     fn from(value: T) -> Self {
         Self::with_value(value)
